@@ -53,7 +53,7 @@ def resolve_type_paths(facts, kind):
     return m.run(RT, [Ref(Cell(t), True), sym_ref("imports"), sym_ref("declared_parcelables"), sym_ref("defined"), sym_ref("diagnostics", mut=True)])
 
 
-def resolve_type_rules(ctx, rep, prop="C05"):
+def resolve_type_rules(ctx, rep, prop="C05", builtin_precedence=True):
     facts = ctx.mir
     fn = facts.fn(RT)
     cats = categories(facts)
@@ -99,7 +99,7 @@ def resolve_type_rules(ctx, rep, prop="C05"):
             k, kind = fields.get(0), fields.get(1)
             if k == "IMPORT_MATCH.Some.0":
                 n_item += 1
-                o3 = cm.get(("FQN", k)) == "None" or cm.get(("FN", "type_.name")) == "None"
+                o3 = (cm.get(("FQN", k)) == "None" or cm.get(("FN", "type_.name")) == "None") or not builtin_precedence
                 if kind == ("adt", RESOLVED, "UnknownImport", ()):
                     o1 = cm.get(("DEFINED", k)) == "None"
                 else:
